@@ -53,11 +53,11 @@ CHECKS.update({
 })
 
 CHECKS.update({
-    "C02": _t("model_checking", "6/C02", "TLA+ ZUpdate (exact subgradient optimality per Toeplitz class) and Admm (control flow) model-checked with TLC + TLC trace validation (TraceAdmm) of every solver hook event, KKT certificate observation at Return",
+    "C02": _t("model_checking", "6/C02", "TLA+ ZUpdate (exact subgradient optimality per Toeplitz class) and Admm (control flow) model-checked with TLC; exact integer replay of the real consensus step judged by TLC (TraceZUpdate); TLC trace validation (TraceAdmm) of every solver hook event, KKT certificate observation at Return",
               "Everything discrete about the solver is model-checked: the consensus step is the exact minimiser per Toeplitz class for scalar and symmetric-matrix lambda (and not for asymmetric lambda), the class maps partition the triangle, the control flow returns the last X and evaluates the stopping rule only from iteration 1. Real solves are validated event by event against Admm; the Return action requires the KKT certificate whenever the stopping rule fired and convergence in the unconditional regime.",
               "optimality comparison is the KKT observation O3 (Appendix C), a kind-4 predicate; convergence within budget is sampled"),
     "C03": _t("model_checking", "6/C03", "TLC trace validation: TiccLoop/TraceTiccLoop require the SPD and floor observations at every Gather/Score/Return; TraceAdmm requires SPD at solver exit over 24 orders of magnitude",
-              "The specification places the obligation (every MRF stored by the optimise phase, scored against, or returned is SPD with finite log-determinant; floor semantics bitwise; all result floats finite) at the actions; runs over data scales 1e-6..1e6 and the solver entry point over covariance scales 1e-12..1e12 and every rank are validated."),
+              "The specification places the obligation (every MRF stored by the optimise phase, scored against, or returned is SPD with finite log-determinant; floor semantics bitwise; all result floats finite) at the actions; runs over data scales 1e-6..1e6 and the solver entry point over covariance scales 1e-12..1e12 and every rank are validated; the floor is replayed exactly on integer matrices; the recorded finding F8 (one-window cluster under the unbiased estimator) is a named deviation action."),
     "C13": _t("model_checking", "6/C13", "TLA+ ModelHeap (object heap with aliasing) model-checked with TLC + TLC trace validation (TraceModelHeap) of random operation sequences on real objects and of every phase boundary of traced runs",
               "ModelHeap models the label list, member lists and arrays as heap objects with the exact sharing rules of shallow/deep copy and of the point_labels setter; TLC shows the four phases keep every state a partition and never alter their input, and exhibits the corruption for the raw 'shallow copy; assign' order. Real operation sequences (including in-place mutation probes) must reproduce the specification's heap after every step.",
               "'fitted statistics' = mean, empirical covariance, MRF, computed covariance; the scoring cache is refreshed in place by design"),
@@ -67,9 +67,9 @@ CHECKS.update({
               "Each run / optimiser call is executed once per equivalent form of lambda, beta and epsilon; the memo specification requires every form to complete and to produce the bit-identical result.",
               "bitwise equality only for values every form represents exactly (dyadic lambda/epsilon, integer beta)"),
     "C19": _t("model_checking", "6/C19", "TLC trace validation: every call/return/raise event carries digests of all caller-owned arguments before and after; the specifications require equality",
-              "Labelling kernel, stacking and compression helpers, both front ends (series, matrix lambda, vector beta; read-only and Fortran-ordered), optimiser entry point, and every failing call of the fault corpus."),
+              "Labelling kernel, stacking and compression helpers, both front ends (series, matrix lambda, vector beta; read-only and Fortran-ordered), the optimiser entry point (solver driver incl. read-only inputs and covariances symmetric only up to round-off, exact consensus-step records), and every failing call of the fault corpus (injected faults, donor shortage, swapped inputs, invalid arguments)."),
     "C20": _t("fault_enumeration", "6/C20", "TLA+ Pool/TiccLoop model-checked with TLC incl. liveness; fault enumeration replayed into the real code (wrappers substituted from the harness) and validated by TLC (TraceTiccLoop raise clauses, TraceMemo)",
-              "TLC explores every interleaving of workers with one injected failure and proves that the parent raises, returns nothing, leaves no worker and terminates; each (round, cluster) task fault and each phase fault is injected into real runs with 1-worker and 3-worker pools, each followed by a clean call whose result must equal the undisturbed baseline.",
+              "TLC explores every interleaving of workers with one injected failure and proves that the parent raises, returns nothing, leaves no worker and terminates; each (round, cluster) task fault and each phase fault is injected into real runs with 1-worker and 3-worker pools, each followed by a clean call whose result must equal the undisturbed baseline; donor shortage, swapped front-end inputs and seven kinds of invalid arguments must raise without leaving a worker; a call in which the injected fault fired must not return.",
               "a failing task is one that raises; a worker killed outright is outside the property"),
 })
 
@@ -128,7 +128,7 @@ def main():
 
 
 SOURCE_COMMITS = ["5d3c2c3", "6e4f46b"]
-FIX_COMMITS = ["84b773b", "5ef812d", "4fe1bb6", "c7c2170", "91550fd", "d50e1da", "211358d"]
+FIX_COMMITS = ["84b773b", "5ef812d", "4fe1bb6", "c7c2170", "91550fd", "d50e1da", "211358d", "62eaea4"]
 NA = {}
 
 if __name__ == "__main__":
